@@ -104,16 +104,28 @@ def correctedIntrons (p : CParams) (err : Nat → Bool → Int × Int) (known re
 def undefinedRegion : Int × Int := ((smc_undefined_region.1 : Int), (smc_undefined_region.2 : Int))
 def absentPosition : Int := (smc_absent_position : Int)
 
-/-- one step of the `for e in ...match_subclassifications` loop; the newest binding of a key is first, so
-    `List.lookup` returns what the Python dict holds after all assignments -/
-def addEvent (micro : Bool) (m : List (Int × MEvent)) (e : MEvent) : List (Int × MEvent) :=
+/-- one step of the `for e in ...match_subclassifications` loop, event-map part; the newest binding of a key is
+    first, so `List.lookup` returns what the Python dict holds after all assignments.  Events whose read region
+    starts with the absent sentinel never enter the event map (micro-intron retentions go to `buildMicroMap`). -/
+def addEvent (m : List (Int × MEvent)) (e : MEvent) : List (Int × MEvent) :=
   if e.read = undefinedRegion then m
-  else if e.read.1 = absentPosition then
-    if e.etype = corrector_micro_intron_test.1 ∧ micro then (-e.read.2 - 1, e) :: m else m
+  else if e.read.1 = absentPosition then m
   else (e.read.1, e) :: m
 
-def buildEventMap (micro : Bool) (events : List MEvent) : List (Int × MEvent) :=
-  events.foldl (addEvent micro) []
+def buildEventMap (events : List MEvent) : List (Int × MEvent) :=
+  events.foldl addEvent []
+
+/-- the same loop, `retained_micro_introns` part (repaired code):
+    `retained_micro_introns.setdefault(e.read_region[1], []).append(e.isoform_region[0])` for a
+    `fake_micro_intron_retention` event when `correct_microintron_retention` is on.  The dict of lists is the list of
+    ALL `(read exon index, isoform intron index)` bindings in event order. -/
+def microEntry (micro : Bool) (e : MEvent) : Option (Int × Int) :=
+  if e.read = undefinedRegion then none
+  else if e.read.1 = absentPosition ∧ e.etype = corrector_micro_intron_test.1 ∧ micro then some (e.read.2, e.iso.1)
+  else none
+
+def buildMicroMap (micro : Bool) (events : List MEvent) : List (Int × Int) :=
+  events.filterMap (microEntry micro)
 
 /-! ### the `while` loop of `process_events` -/
 
@@ -179,34 +191,79 @@ def eventStep (p : CParams) (readRegion : Iv) (readIntrons corrected : List Iv) 
     | _, _ => .error .index
   else keepStep readIntrons corrected e reg acc
 
-/-- "special case for fake IR": `if -i-1 in event_map: new_introns.append(isoform_introns[...isoform_region[0]])` -/
-def microStep (emap : List (Int × MEvent)) (isoIntrons : List Iv) (i : Int) (acc : List Iv) : Except CErr (List Iv) :=
-  match emap.lookup (-i - 1) with
-  | none => .ok acc
-  | some e =>
-    match pyGet? isoIntrons e.iso.1 with
-    | none => .error .index
-    | some x => .ok (acc ++ [x])
+/-- `retained_micro_introns.get(i, [])`: the isoform intron indices bound to read exon `i`, in event order -/
+def microAt (mm : List (Int × Int)) (i : Int) : List Int := (mm.filter (fun q => q.1 == i)).map (·.2)
 
-/-- `while i < len(corrected_introns)`; state = (i, corrected_read_region, new_introns) -/
-def eventLoop (p : CParams) (emap : List (Int × MEvent)) (readRegion : Iv) (readIntrons corrected : List Iv)
-    (isoRegion : Iv) (isoIntrons : List Iv) : Nat → Int → Iv → List Iv → Except CErr (Iv × List Iv)
+/-- `[l[j] for j in js]`; `none` = IndexError -/
+def getAll (l : List Iv) : List Int → Option (List Iv)
+  | [] => some []
+  | j :: js =>
+    match pyGet? l j, getAll l js with
+    | some x, some xs => some (x :: xs)
+    | _, _ => none
+
+/-- "special case for fake IR" (repaired code): every micro intron of the isoform retained in the read exon that
+    precedes read intron `i` (`i = len(read_introns)`: the last exon) is restored -/
+def microStep (mm : List (Int × Int)) (isoIntrons : List Iv) (i : Int) (acc : List Iv) : Except CErr (List Iv) :=
+  match getAll isoIntrons (microAt mm i) with
+  | none => .error .index
+  | some xs => .ok (acc ++ xs)
+
+/-- `while i < len(corrected_introns)` + the step for the last read exon after the loop;
+    state = (i, corrected_read_region, new_introns) -/
+def eventLoop (p : CParams) (emap : List (Int × MEvent)) (mm : List (Int × Int)) (readRegion : Iv)
+    (readIntrons corrected : List Iv) (isoRegion : Iv) (isoIntrons : List Iv) :
+    Nat → Int → Iv → List Iv → Except CErr (Iv × List Iv)
   | 0, _, _, _ => .error .fuel
   | fuel + 1, i, reg, acc =>
     if i < (corrected.length : Int) then
-      match microStep emap isoIntrons i acc with
+      match microStep mm isoIntrons i acc with
       | .error x => .error x
       | .ok acc1 =>
         match emap.lookup i with
         | none =>
           match pyGet? corrected i with
           | none => .error .index
-          | some c => eventLoop p emap readRegion readIntrons corrected isoRegion isoIntrons fuel (i + 1) reg (acc1 ++ [c])
+          | some c => eventLoop p emap mm readRegion readIntrons corrected isoRegion isoIntrons fuel (i + 1) reg (acc1 ++ [c])
         | some e =>
           match eventStep p readRegion readIntrons corrected isoRegion isoIntrons e reg acc1 with
           | .error x => .error x
           | .ok (reg', acc2) =>
-            eventLoop p emap readRegion readIntrons corrected isoRegion isoIntrons fuel (e.read.2 + 1) reg' acc2
+            eventLoop p emap mm readRegion readIntrons corrected isoRegion isoIntrons fuel (e.read.2 + 1) reg' acc2
+    else
+      match microStep mm isoIntrons (corrected.length : Int) acc with
+      | .error x => .error x
+      | .ok acc1 => .ok (reg, acc1)
+
+/-- the code BEFORE the repair (kept for the `…_witness` theorems): the dict key `-k-1` held ONE event (the last
+    one assigned: `microAtOld`), and the key of the last read exon (`k = len(read_introns)`) was never looked up
+    (no step after the loop) -/
+def microAtOld (mm : List (Int × Int)) (i : Int) : List Int := (microAt mm i).getLast?.toList
+
+def microStepOld (mm : List (Int × Int)) (isoIntrons : List Iv) (i : Int) (acc : List Iv) : Except CErr (List Iv) :=
+  match getAll isoIntrons (microAtOld mm i) with
+  | none => .error .index
+  | some xs => .ok (acc ++ xs)
+
+def eventLoopOld (p : CParams) (emap : List (Int × MEvent)) (mm : List (Int × Int)) (readRegion : Iv)
+    (readIntrons corrected : List Iv) (isoRegion : Iv) (isoIntrons : List Iv) :
+    Nat → Int → Iv → List Iv → Except CErr (Iv × List Iv)
+  | 0, _, _, _ => .error .fuel
+  | fuel + 1, i, reg, acc =>
+    if i < (corrected.length : Int) then
+      match microStepOld mm isoIntrons i acc with
+      | .error x => .error x
+      | .ok acc1 =>
+        match emap.lookup i with
+        | none =>
+          match pyGet? corrected i with
+          | none => .error .index
+          | some c => eventLoopOld p emap mm readRegion readIntrons corrected isoRegion isoIntrons fuel (i + 1) reg (acc1 ++ [c])
+        | some e =>
+          match eventStep p readRegion readIntrons corrected isoRegion isoIntrons e reg acc1 with
+          | .error x => .error x
+          | .ok (reg', acc2) =>
+            eventLoopOld p emap mm readRegion readIntrons corrected isoRegion isoIntrons fuel (e.read.2 + 1) reg' acc2
     else .ok (reg, acc)
 
 /-- enough fuel for every terminating run: an iteration without an event needs `-len ≤ i < len`, an iteration
@@ -215,9 +272,17 @@ def eventFuel (emap : List (Int × MEvent)) (corrected : List Iv) : Nat := 2 * c
 
 /-- `process_events` -/
 def processEvents (p : CParams) (err : Nat → Bool → Int × Int) (known : List Iv) (emap : List (Int × MEvent))
-    (readRegion : Iv) (readIntrons : List Iv) (isoRegion : Iv) (isoIntrons : List Iv) : Except CErr (Iv × List Iv) :=
+    (mm : List (Int × Int)) (readRegion : Iv) (readIntrons : List Iv) (isoRegion : Iv) (isoIntrons : List Iv) :
+    Except CErr (Iv × List Iv) :=
   let corrected := correctedIntrons p err known readIntrons
-  eventLoop p emap readRegion readIntrons corrected isoRegion isoIntrons (eventFuel emap corrected) 0 readRegion []
+  eventLoop p emap mm readRegion readIntrons corrected isoRegion isoIntrons (eventFuel emap corrected) 0 readRegion []
+
+/-- `process_events` before the repair (micro-intron restoration: one per read exon, never in the last exon) -/
+def processEventsOld (p : CParams) (err : Nat → Bool → Int × Int) (known : List Iv) (emap : List (Int × MEvent))
+    (mm : List (Int × Int)) (readRegion : Iv) (readIntrons : List Iv) (isoRegion : Iv) (isoIntrons : List Iv) :
+    Except CErr (Iv × List Iv) :=
+  let corrected := correctedIntrons p err known readIntrons
+  eventLoopOld p emap mm readRegion readIntrons corrected isoRegion isoIntrons (eventFuel emap corrected) 0 readRegion []
 
 /-! ### `correct_assigned_read` -/
 
@@ -237,10 +302,22 @@ def chainSorted : List Iv → Bool
 def validChain (exons : List Iv) : Bool :=
   exons.all (fun e => decide (e.1 ≤ e.2)) && chainSorted exons
 
+/-- second conjunct of `ExonCorrector.is_valid_intron_chain`: at least one exon base between consecutive introns -/
+def intronsSpaced : List Iv → Bool
+  | [] => true
+  | [_] => true
+  | a :: b :: t => decide (a.2 + 1 < b.1) && intronsSpaced (b :: t)
+
+/-- `ExonCorrector.is_valid_intron_chain` (repair `fix_corrector_closed_intron`, builder c19x): non-empty introns with
+    at least one exon base between consecutive ones; tested BEFORE the new introns reach `junctions_from_blocks` -/
+def validIntronChain (introns : List Iv) : Bool :=
+  introns.all (fun i => decide (i.1 ≤ i.2)) && intronsSpaced introns
+
 /-- `correct_assigned_read`.  `events = none` ⇔ `not read_assignment.isoform_matches`; otherwise the events of
     `isoform_matches[0]`.  `read_introns` / `read_start` / `read_end` are what `AlignmentInfo` and
     `construct_intron_profile` derive from `read_exons`.  A correction that does not yield a valid exon chain is
-    discarded (the read's own exons are returned). -/
+    discarded (the read's own exons are returned); so is one whose new introns are not a valid intron chain (an empty
+    intron, or two introns closing the exon between them: `validIntronChain`). -/
 def correctAssignedRead (p : CParams) (err : Nat → Bool → Int × Int) (known : List Iv) (noninformative : Bool)
     (events : Option (List MEvent)) (isoRegion : Iv) (isoIntrons : List Iv) (exons : List Iv) :
     Except CErr (List Iv) :=
@@ -251,8 +328,27 @@ def correctAssignedRead (p : CParams) (err : Nat → Bool → Int × Int) (known
     else
       match exons.head?, exons.getLast? with
       | some f, some l =>
-        let emap := buildEventMap p.fl.microintron_retention evs
-        match processEvents p err known emap (f.1, l.2) (junctionsFromBlocks exons) isoRegion isoIntrons with
+        let emap := buildEventMap evs
+        let mm := buildMicroMap p.fl.microintron_retention evs
+        match processEvents p err known emap mm (f.1, l.2) (junctionsFromBlocks exons) isoRegion isoIntrons with
+        | .error x => .error x
+        | .ok (reg, ni) => if validIntronChain ni && validChain (buildExons reg ni) then .ok (buildExons reg ni) else .ok exons
+      | _, _ => .error .index
+
+/-- `correct_assigned_read` before the micro-intron repair (`processEventsOld`): kept for the `…_witness` theorems -/
+def correctAssignedReadOld (p : CParams) (err : Nat → Bool → Int × Int) (known : List Iv) (noninformative : Bool)
+    (events : Option (List MEvent)) (isoRegion : Iv) (isoIntrons : List Iv) (exons : List Iv) :
+    Except CErr (List Iv) :=
+  match events with
+  | none => .ok exons
+  | some evs =>
+    if exons.length = 1 ∨ noninformative then .ok exons
+    else
+      match exons.head?, exons.getLast? with
+      | some f, some l =>
+        let emap := buildEventMap evs
+        let mm := buildMicroMap p.fl.microintron_retention evs
+        match processEventsOld p err known emap mm (f.1, l.2) (junctionsFromBlocks exons) isoRegion isoIntrons with
         | .error x => .error x
         | .ok (reg, ni) => if validChain (buildExons reg ni) then .ok (buildExons reg ni) else .ok exons
       | _, _ => .error .index
@@ -268,8 +364,9 @@ def correctAssignedReadBuggy (p : CParams) (err : Nat → Bool → Int × Int) (
     else
       match exons.head?, exons.getLast? with
       | some f, some l =>
-        let emap := buildEventMap p.fl.microintron_retention evs
-        match processEvents p err known emap (f.1, l.2) (junctionsFromBlocks exons) isoRegion isoIntrons with
+        let emap := buildEventMap evs
+        let mm := buildMicroMap p.fl.microintron_retention evs
+        match processEvents p err known emap mm (f.1, l.2) (junctionsFromBlocks exons) isoRegion isoIntrons with
         | .error x => .error x
         | .ok (reg, ni) => .ok (buildExons reg ni)
       | _, _ => .error .index
